@@ -82,6 +82,7 @@ class MTVRPAdapter(RoutingAdapter):
 
     # ---------------------------------------------------------------- variants
     def variants(self, tier):
+        self._exact = []          # (env, variant, td, meta) of the exact-grid instances of the collection that starts now
         out = []
         if tier == "quick":
             sizes = [3, 5, 4, 7]
@@ -134,8 +135,10 @@ class MTVRPAdapter(RoutingAdapter):
         for rep in range(ke):
             site = sites[rep] if rep < len(sites) else rng.choice(sites)
             delta = rng.choice([0, 0, 1, -1])
-            td1 = self.exact_instance(rng, n, f, site, delta)
-            out.append((td1, {"kind": "exact/%s%+d" % (site, delta)}))
+            td1, route = self.exact_instance(rng, n, f, site, delta)
+            meta = {"kind": "exact/%s%+d" % (site, delta), "target_route": route}
+            out.append((td1, meta))
+            self._exact.append((env, variant, td1, meta))
         return out
 
     @staticmethod
@@ -213,6 +216,9 @@ class MTVRPAdapter(RoutingAdapter):
         tw, svc = None, None
         if f["TW"]:
             svc_u = [0] + [rng.choice([0, 0, 4, 8, 19]) for _ in range(n)]
+            if site in ("twd", "odep"):
+                for j in route:
+                    svc_u[j] = rng.choice([4, 8, 19])      # so that a dropped service time shows at the depot deadline
             lo_u = [0] * (n + 1)
             hi_u = [None] * (n + 1)
             t = Fraction(0)
@@ -257,7 +263,35 @@ class MTVRPAdapter(RoutingAdapter):
             hi_u[0] = h0
             tw = [[lo_u[j] / U, hi_u[j] / U] for j in range(n + 1)]
             svc = [s / U for s in svc_u]
-        return self.mk_td(pts, [v / Q for v in dl], [v / Q for v in db], 1.0, limit, opn, tw, svc, speed)
+        return self.mk_td(pts, [v / Q for v in dl], [v / Q for v in db], 1.0, limit, opn, tw, svc, speed), route
+
+    # ---------------------------------------------------------------- target walks: the tight step is actually taken
+    def extra_items(self, ctx, pid, tier):
+        """one more episode per exact-grid instance: follow the target route (around which the tight constraint was
+        built) as far as the mask admits it, then go on with a chooser"""
+        from vt.envprops import Item
+        rng = ctx.rng
+        out = []
+        for env, variant, td_in, meta in getattr(self, "_exact", []):
+            td = env.reset(td_in.clone())
+            prefix = []
+            for a in list(meta["target_route"]) + [0]:
+                if not bool(td["action_mask"][0, a]):
+                    break
+                td.set("action", torch.tensor([a], dtype=torch.int64))
+                td = env.step(td)["next"]
+                prefix.append(a)
+                if bool(td["done"].reshape(-1)[0]):
+                    break
+            ch = rng.choice(["uniform", "depot_last", "depot_first"])
+            eps, td_reset, td_fin, actions = envh.rollout(env, td_in, rng, choosers=[ch], forced=[prefix],
+                                                          pad_steps=rng.choice([0, 1]), max_steps=self.max_steps(variant))
+            envh.rewards_and_verdicts(env, td_fin, td_reset, actions, eps, self.reward_td)
+            out.append(Item(self, variant, env, td_in, td_reset, eps[0], dict(meta, chooser="target+" + ch, admitted_prefix=len(prefix)), "solo"))
+            ctx.count("%s/%s/target_walks" % (self.name, self.variant_tag(variant)))
+            if len(prefix) == len(meta["target_route"]) + 1:
+                ctx.count("%s/target_route_fully_admitted" % self.name)
+        return out
 
     # ---------------------------------------------------------------- Coq encoding
     def dist_matrix(self, td_reset):
